@@ -320,14 +320,6 @@ func extractHandleOrder(f *ast.File) (order, ackBranch, respBranch []string, err
 	return
 }
 
-func leanStrList(l []string) string {
-	var q []string
-	for _, x := range l {
-		q = append(q, fmt.Sprintf("%q", x))
-	}
-	return "[" + strings.Join(q, ", ") + "]"
-}
-
 func genQueryLocks(repo string) (string, error) {
 	_, f, err := parseFile(repo + "/serf/query.go")
 	if err != nil {
